@@ -52,7 +52,13 @@ def body(ctx: H.BaseCtx):
     src = ctx.case["src"]
     mod = importlib.import_module("nv.checks." + src)
     mod.body_for(ctx.case)(ctx)
-    ctx.issues[:] = [i for i in ctx.issues if i.kind not in ALLOWED_DIFFERENCES]
+    rn = (ctx.case.get("options") or {}).get("retain_names", True)
+    ctx.issues[:] = [
+        i for i in ctx.issues
+        if i.kind not in ALLOWED_DIFFERENCES
+        # under retain_names=False an input that has to be rebuilt (e.g. broadcast) may drop a name it does not use: allowed
+        and not (not rn and i.kind == "align" and i.detail.startswith("names"))
+    ]
 
 
 def body_for(case):
@@ -93,6 +99,9 @@ def gen_cases(tier: str, seed: int) -> List[Dict]:
         cs = mod.gen_cases(tier, seed)
         if src == "c13":
             cs = [c for c in cs if c["kind"] in ("pickle", "copy")]
+        if src == "c10":
+            # the recorded known finding C10-matmul-vector (1-d operands) is C10's business
+            cs = [c for c in cs if not (c["fn"].startswith("matmul") and any(len(o["shape"]) == 1 for o in c["operands"]))]
         if src == "c19":
             cs = [c for c in cs if c["fn"] in ("lead", "const", "decompose", "set_dimensions")]
         pools[src] = cs
